@@ -293,16 +293,18 @@ theorem reachable_header_ok (env : Env) (s : State) (a : Option ProposerAction) 
   exact ⟨⟨hdr, hh⟩, ReachL.nextUnsealed_total env ss hdr hh⟩
 
 /-- **C09 for reachable states**: the structural part of `ApplyPre` is discharged; what remains are the
-    hash-freshness assumption, the supply bound and the two explicitly excluded findings (MelPoW panics, DOSC
-    reward overflow).  The former hypothesis `weights` (F19, covenant weight sum) is gone: since the fix
-    `loadRelevantCoins` rejects a batch with such a transaction (`C09_heavy_covenants_rejected`). -/
+    hash-freshness assumption, the supply bound, the bound on the difficulties the MelPoW oracle accepts and the
+    one explicitly excluded finding (DOSC reward overflow).  The former hypothesis `weights` (F19, covenant weight
+    sum) is gone: since the fix `loadRelevantCoins` rejects a batch with such a transaction
+    (`C09_heavy_covenants_rejected`).  The former hypothesis `powTotal` (F9, `melpow::Proof::verify` panics) is gone
+    too: since the fix such a proof is rejected with `InvalidMelPoW` (`C18_panicking_proof_rejected`,
+    `C09_doscmint_never_crashes_on_proof`), whatever the oracle answers. -/
 theorem C09_apply_total_reachable (env : Env) (s : State) (txs : List Tx) (fb : Header)
     (h : Reachable env s)
     /- ADDED, as in `reachable_inv` -/
     (hsep : ReachableSep env s)
     (h906 : s.tip906 = true) (hf : BatchFresh s txs)
     (bounded : (s.coins.coins.map (·.2.coinData.value)).sum + ((txs.flatMap (·.outputs)).map (·.value)).sum ≤ U128_MAX)
-    (powTotal : ∀ a b c d, env.powOk a b c d ≠ .panics)
     (powDifficulty : ∀ a b c d, env.powOk a b c d ≠ .invalid → c ≤ 100)
     (rewardFits : ∀ hdr, s.history.get (s.height - 1) = some hdr → ∀ a b d t, env.powOk a b d t ≠ .invalid →
       microergsIter s.height * maxDoscReward d hdr.doscSpeed / MICRO_CONVERTER ≤ U128_MAX) :
@@ -310,7 +312,7 @@ theorem C09_apply_total_reachable (env : Env) (s : State) (txs : List Tx) (fb : 
   let hi := reachable_inv env s h hsep
   C09_apply_total env s txs fb
     { counts := (CountsSound_iff _).mpr (hi.counts h906), fresh := hf.fresh, heights := hi.heights,
-      bounded := bounded, speeds := hi.speeds, historyBelow := hi.historyBelow, powTotal := powTotal,
+      bounded := bounded, speeds := hi.speeds, historyBelow := hi.historyBelow,
       powDifficulty := powDifficulty, rewardFits := rewardFits }
 
 set_option linter.unusedVariables false in
@@ -502,17 +504,14 @@ theorem C20_reachable_counterexample : ∃ (env : Env) (s : State), Reachable en
 theorem C09_apply_total_reachable_counterexample : ∃ (env : Env) (s : State) (txs : List Tx) (fb : Header),
     Reachable env s ∧ s.tip906 = true ∧ BatchFresh s txs ∧
     ((s.coins.coins.map (·.2.coinData.value)).sum + ((txs.flatMap (·.outputs)).map (·.value)).sum ≤ U128_MAX) ∧
-    (∀ a b c d, env.powOk a b c d ≠ .panics) ∧
     (∀ a b c d, env.powOk a b c d ≠ .invalid → c ≤ 100) ∧
     (∀ t ∈ txs, (t.covenants.map covenantWeightFromBytes).sum ≤ U128_MAX) ∧
     (∀ hdr, s.history.get (s.height - 1) = some hdr → ∀ a b d t, env.powOk a b d t ≠ .invalid →
       microergsIter s.height * maxDoscReward d hdr.doscSpeed / MICRO_CONVERTER ≤ U128_MAX) ∧
     ∃ c, applyBatch env s txs fb = .crash c := by
   refine ⟨ReachWitness.env, ReachWitness.s2, [ReachWitness.w], default, ReachWitness.s2_reachable,
-    ReachWitness.s2_bad.1, ReachWitness.batchFresh2, by decide +kernel, ?_,
+    ReachWitness.s2_bad.1, ReachWitness.batchFresh2, by decide +kernel,
     fun _ _ _ _ h => absurd rfl h, ?_, fun _ _ _ _ _ _ h => absurd rfl h, ?_⟩
-  · intro a b c d h
-    cases h
   · intro t ht
     simp only [List.mem_cons, List.not_mem_nil, or_false] at ht
     subst ht
